@@ -14,6 +14,7 @@ CONSTANTS
   Ckpts = {"soft"}
   Moves = "all"
   InitAlpha = "ctor"
+  CtorOpts = "all"
   AllowKF = TRUE
   Grads = {TRUE, FALSE}
   SelHows = {}
